@@ -484,5 +484,9 @@ func (s SyscallWithConditions) Assemble(p *Program, action Label) {
 		}
 		p.SetLabel(noMatch)
 	}
+
+	// No condition list matched and the accumulator holds an argument now.
+	// Load the syscall number again for the checks of the following syscalls.
+	p.instructions = append(p.instructions, bpf.LoadAbsolute{Off: syscallNumOffset, Size: sizeOfUint32})
 	p.SetLabel(nextSyscall)
 }
